@@ -11,6 +11,7 @@ import (
 	"bytes"
 	"fmt"
 	"io"
+	"math"
 	"slices"
 )
 
@@ -47,7 +48,10 @@ type reader struct {
 
 // Returns a new fastq reader that reads from r.
 func newReader(r io.Reader) *reader {
-	return &reader{s: bufio.NewScanner(r)}
+	s := bufio.NewScanner(r)
+	// Lift the scanner's default 64 KiB line limit; reads can be much longer.
+	s.Buffer(nil, math.MaxInt)
+	return &reader{s: s}
 }
 
 // Reads the next fastq entry from the reader.
